@@ -169,55 +169,76 @@ def run_miri_diff(prop, stage, tier, seed, build, log):
 
 
 def run_miri_race(prop, stage, tier, seed, build, log):
+    """Two many-seeds Miri runs in parallel: default memory model, and weak-memory
+    emulation switched off (each variant reports races the other can miss)."""
     res = {"name": stage["name"], "result": empty_result(), "violations": [], "inconclusive": []}
     r = res["result"]
     t0 = time.time()
     n = stage.get("seeds", 16)
+    half = max(1, n // 2)
     lo = (seed % 1000) * 100
-    p = {"build_id": "none", "args": ["race", str(seed % 100000)],
-         "miriflags": f"-Zmiri-many-seeds={lo}..{lo + n}"}
-    cmd, env = miri_cmd(p)
+    variants = [("default", f"-Zmiri-many-seeds={lo}..{lo + half}"),
+                ("no-weak-memory-emulation", f"-Zmiri-disable-weak-memory-emulation -Zmiri-many-seeds={lo + half}..{lo + 2 * half}")]
     timeout = stage.get("timeout", 2400)
-    try:
-        cp = subprocess.run(cmd, cwd=HARNESS, env=env, stdout=subprocess.PIPE, stderr=subprocess.PIPE, text=True,
-                            timeout=timeout)
-    except subprocess.TimeoutExpired:
-        res["inconclusive"].append(f"stage {stage['name']}: Miri many-seeds run exceeded {timeout}s (inconclusive)")
-        return res
-    log(f"{prop} {stage['name']}: exit {cp.returncode} in {time.time() - t0:.0f}s")
-    verdict, sig, excerpt = classify_miri(cp.stderr)
-    if "Data race detected" in cp.stderr:
-        m = re.search(r"Data race detected[^\n]*", cp.stderr)
-        frame = re.search(r"-->\s*(\S+:\d+)", cp.stderr[m.start():])
-        sig = "miri:data-race:" + (frame.group(1).split("/")[-1] if frame else "?")
-        verdict, excerpt = "violation", cp.stderr[m.start() - 200:m.start() + 1500]
-    if verdict == "violation":
-        res["violations"].append({"sig": sig, "detail": excerpt, "stage": stage["name"], "rsmon_stage": None,
-                                  "case_seed": None, "build": "miri"})
-        r["violation_count"] += 1
-    elif verdict == "inconclusive" or cp.returncode != 0:
-        res["inconclusive"].append(f"stage {stage['name']}: {excerpt or cp.stderr[-400:]}")
-    tried = len(re.findall(r"Trying seed", cp.stderr))
-    lines = [l for l in cp.stdout.splitlines() if l.startswith("thread")]
-    # all seeds run the same workload: every seed must print the same digests
-    by_thread = {}
-    for l in lines:
-        f = l.split()
-        by_thread.setdefault((f[1], f[3]), set()).add(f[4])
-    for k, v in by_thread.items():
-        if len(v) > 1:
-            res["violations"].append({"sig": "miri-race:digest-depends-on-schedule",
-                                      "detail": f"thread {k}: digests {sorted(v)} under different Miri schedules",
-                                      "stage": stage["name"], "rsmon_stage": None, "case_seed": None, "build": "miri"})
+
+    def one(v):
+        name, flags = v
+        p = {"build_id": "none", "args": ["race", str((seed + (0 if name == "default" else 1)) % 100000)], "miriflags": flags}
+        cmd, env = miri_cmd(p)
+        try:
+            cp = subprocess.run(cmd, cwd=HARNESS, env=env, stdout=subprocess.PIPE, stderr=subprocess.PIPE, text=True,
+                                timeout=timeout)
+            return name, cp
+        except subprocess.TimeoutExpired:
+            return name, None
+
+    # both at once (cargo's own lock serialises the shared build)
+    with concurrent.futures.ThreadPoolExecutor(max_workers=2) as ex:
+        both = list(ex.map(one, variants))
+    first, rest = both[:1], both[1:]
+    tried_total = 0
+    all_lines = []
+    for name, cp in first + rest:
+        if cp is None:
+            res["inconclusive"].append(f"stage {stage['name']}/{name}: Miri many-seeds run exceeded {timeout}s (inconclusive)")
+            continue
+        log(f"{prop} {stage['name']}/{name}: exit {cp.returncode} in {time.time() - t0:.0f}s")
+        verdict, sig, excerpt = classify_miri(cp.stderr)
+        if "Data race detected" in cp.stderr:
+            m = re.search(r"Data race detected[^\n]*", cp.stderr)
+            frames = re.findall(r"-->\s*(\S+:\d+)", cp.stderr[m.start():m.start() + 3000])
+            inrepo = next((f for f in frames if "/src/" in f and "rustlib" not in f and "rsmiri" not in f), frames[0] if frames else "?")
+            sig = "miri:data-race:" + inrepo.split("/")[-1]
+            verdict, excerpt = "violation", cp.stderr[max(0, m.start() - 200):m.start() + 1800]
+        if verdict == "violation":
+            res["violations"].append({"sig": sig, "detail": f"{name}: {excerpt}", "stage": stage["name"],
+                                      "rsmon_stage": None, "case_seed": None, "build": "miri"})
             r["violation_count"] += 1
-    r["cases"] = tried
-    r["evaluations"] = len(lines)
-    r["distinct_nontrivial"] = tried
-    r["tags"]["miri-race:schedules(seeds)"] = tried
-    r["tags"]["miri-race:thread-results"] = len(lines)
-    r["samples"].append({"stage": stage["name"], "case_seed": seed, "case": {"miri_many_seeds": f"{lo}..{lo + n}",
-                                                                               "first_lines": lines[:4]}})
-    if tried == 0:
+        elif verdict == "inconclusive" or cp.returncode != 0:
+            res["inconclusive"].append(f"stage {stage['name']}/{name}: {excerpt or cp.stderr[-400:]}")
+        tried = len(re.findall(r"Trying seed", cp.stderr))
+        tried_total += tried
+        r["tags"][f"miri-race:{name}:schedules(seeds)"] = tried
+        lines = [l for l in cp.stdout.splitlines() if l.startswith("thread")]
+        all_lines += lines
+        # all seeds of one variant run the same workload: same digests expected
+        by_thread = {}
+        for l in lines:
+            f = l.split()
+            by_thread.setdefault((f[1], f[3]), set()).add(f[4])
+        for k, v in by_thread.items():
+            if len(v) > 1:
+                res["violations"].append({"sig": "miri-race:digest-depends-on-schedule",
+                                          "detail": f"{name}: thread {k}: digests {sorted(v)} under different Miri schedules",
+                                          "stage": stage["name"], "rsmon_stage": None, "case_seed": None, "build": "miri"})
+                r["violation_count"] += 1
+    r["cases"] = tried_total
+    r["evaluations"] = len(all_lines)
+    r["distinct_nontrivial"] = tried_total
+    r["tags"]["miri-race:thread-results"] = len(all_lines)
+    r["samples"].append({"stage": stage["name"], "case_seed": seed,
+                         "case": {"miri_many_seeds": [v[1] for v in variants], "first_lines": all_lines[:4]}})
+    if tried_total == 0:
         res["inconclusive"].append(f"stage {stage['name']}: Miri reported no seeds tried")
     r["wall_s"] = round(time.time() - t0, 1)
     return res
